@@ -6,6 +6,10 @@ func init() { generators["C16"] = genC16 }
 
 // genC16: RFC 6062 - Connect / inbound peer connections / ConnectionBind / byte streams.
 func genC16(p *Plan, r *RNG) {
+	if r.Chance(1, 5) {
+		genC16Race(p, r)
+		return
+	}
 	baseSrvConfig(p, r)
 	p.Flavor = "tcprelay"
 	p.Cfg.Listener = "tcp"
@@ -110,4 +114,67 @@ func genC16(p *Plan, r *RNG) {
 	if r.Chance(1, 4) {
 		addFaults(p, r, 1)
 	}
+}
+
+// genC16Race: ConnectionBind racing the 30-second bind timer. Either the bind request is
+// issued shortly before the deadline and its handling is parked across it, or the timer
+// callback itself is parked (it logs before it removes the connection) and the bind arrives
+// meanwhile. Bytes in both directions afterwards show whether a bound pipe survived.
+func genC16Race(p *Plan, r *RNG) {
+	baseSrvConfig(p, r)
+	p.Flavor = "tcprelay-race-bind"
+	p.Cfg.Listener = "tcp"
+	p.Cfg.Extra = map[string]int64{"tcp_peers": 1}
+	p.Cfg.PermTimeoutS = r.PickInt([]int{0, 600})
+	p.Cfg.AllocLifeS = r.PickInt([]int{0, 600})
+	p.Clients = []ClientSpec{{ID: "c1", Addr: "10.0.1.1:4000", User: "u1", Pass: "pw-one"}}
+	p.Peers = []PeerSpec{{ID: "p1", Addr: "10.0.2.1:5000"}}
+	c, pid, peer := "c1", "p1", p.Peers[0].Addr
+	add := func(o Op) int {
+		p.Ops = append(p.Ops, o)
+		return len(p.Ops)
+	}
+	add(Op{Actor: c, Kind: "allocate", At: gap(int64(r.Range(1, 200)) * ms), A: OpArgs{Lifetime: -1, Transport: "tcp"}})
+	if r.Chance(1, 2) {
+		add(Op{Actor: c, Kind: "connect", At: gap(int64(r.Range(50, 500)) * ms), A: OpArgs{Peer: peer}})
+	} else {
+		add(Op{Actor: c, Kind: "createperm", At: gap(int64(r.Range(50, 300)) * ms), A: OpArgs{Peer: peer}})
+		add(Op{Actor: pid, Kind: "peer_connect", At: gap(int64(r.Range(50, 500)) * ms), A: OpArgs{Target: c, N: 0}})
+	}
+	// a time reference is resolved when the previous operation has been issued: give the
+	// connection time to exist before the next one refers to its deadline
+	add(Op{Actor: "", Kind: "wait", At: gap(int64(r.Range(800, 3000)) * ms)})
+	at := func(off int64) TimeSpec { return ref("tcp_deadline", off, c, "0") }
+	if r.Chance(1, 2) {
+		// the timer callback parked between its check and the removal
+		x := add(Op{Actor: "", Kind: "wait", At: at(-r.PickI64([]int64{ms, 5 * ms, 200 * ms}))})
+		park := r.PickI64([]int64{500 * ms, 2 * sec, 5 * sec})
+		cls := r.Pick([]string{"log:*", "log:*", "lock", "sock:relay-out:Close", "sock:relay-conn:Close"})
+		p.Stalls = append(p.Stalls, Stall{M: Match{Class: cls, Args: "*", Nth: 1}, ParkNS: park, AfterOp: x})
+		add(Op{Actor: c, Kind: "connbind", At: gap(r.PickI64([]int64{ms, 100 * ms, 300 * ms, park / 2})), A: OpArgs{N: 0}})
+		add(Op{Actor: "", Kind: "wait", At: gap(park)})
+	} else {
+		delta := r.PickI64([]int64{ms, 50 * ms, 150 * ms, 400 * ms, sec})
+		x := add(Op{Actor: c, Kind: "connbind", At: at(-delta), A: OpArgs{N: 0}})
+		park := delta + r.PickI64([]int64{ms, 100 * ms, sec, 3 * sec})
+		cls := r.Pick([]string{"cb:Auth", "cb:OnAuth", "lock", "unlock", "log:*", "sock:listener-conn:Write", "sock:listener-conn:Read"})
+		nth := 1
+		if cls == "lock" || cls == "unlock" || cls == "log:*" || cls == "sock:listener-conn:Read" {
+			nth = r.Range(1, 5)
+		}
+		p.Stalls = append(p.Stalls, Stall{M: Match{Class: cls, Args: "*", Nth: nth}, ParkNS: park, AfterOp: x})
+		add(Op{Actor: "", Kind: "wait", At: gap(park + 100*ms)})
+	}
+	for i := r.Range(1, 4); i > 0; i-- {
+		if r.Chance(1, 2) {
+			add(Op{Actor: c, Kind: "data_send", At: gap(int64(r.Range(50, 800)) * ms), A: OpArgs{N: 0, Len: r.PickInt([]int{1, 100, 5000})}})
+		} else {
+			add(Op{Actor: pid, Kind: "peer_data", At: gap(int64(r.Range(50, 800)) * ms), A: OpArgs{N: 0, Len: r.PickInt([]int{1, 100, 5000})}})
+		}
+	}
+	if r.Chance(1, 3) {
+		add(Op{Actor: c, Kind: "connbind", At: gap(int64(r.Range(50, 800)) * ms), A: OpArgs{N: 0}}) // a second bind of the same id
+	}
+	add(Op{Actor: c, Kind: "binding", At: gap(500 * ms)})
+	p.QuietNS = 40 * sec
 }
